@@ -40,7 +40,7 @@ Verdict(e) ==
   ELSE IF e.op \in {"uniq", "law"} THEN
        LET r   == [i \in DOMAIN e.recs |-> Rec(e.recs[i])]
            o   == [ncat |-> e.ncat, merge |-> e.merge = 1, ns |-> e.ns = 1]
-           exp == {U!EncOut(x) : x \in U!Uniq(r, o)}
+           exp == {U!EncOut(x) : x \in U!UniqFold(r, o)}
            got == SetOf(e.out)
            c   == Compare(e, got, exp)
        IN  IF c # "ok" THEN c
